@@ -145,11 +145,14 @@ def run(ctx):
     ctx.ob('C09.r2', F.name, 'partial command rewinds to min(given block numbers, current progress)', bool(parts) and has_min and cl_min,
            origins=sorted(po)[:8])
     # the rewind value reaches update_min_filtered_block_number
-    um = P.call_sites(F, 'Storage::update_min_filtered_block_number')
-    ctx.floor('C09.r2', 'update_min_filtered_block_number in update_filter_scripts', len(um), 1)
-    o = du.origins(um[0][1].args[1])
-    ctx.ob('C09.r2', F.name, 'the value written as filter progress is the computed minimum', int(mbn[1:]) in
-           {int(x) for x in re.findall(r'_(\d+)', ' '.join(reach_locals(du, um[0][1].args[1])))}, at=um[0][1].span)
+    writes = [(t, t.args[1]) for b_, t in P.call_sites(F, 'Storage::update_min_filtered_block_number')]
+    for bid, k, t in P.call_keys(F):
+        if k in ('Batch::put', 'Batch::put_kv') and len(t.args) >= 3 and ('named_const', 'MIN_FILTERED_BLOCK_NUMBER') in du.origins(t.args[1], stop_at_calls=False):
+            writes.append((t, t.args[2]))
+    ctx.floor('C09.r2', 'write of MIN_FILTERED_NUMBER in update_filter_scripts', len(writes), 1)
+    for t, val in writes:
+        ctx.ob('C09.r2', F.name, 'the value written as filter progress is the computed minimum', int(mbn[1:]) in
+               {int(x) for x in re.findall(r'_(\d+)', ' '.join(reach_locals(du, val)))}, at=t.span)
 
     # r3 clear after commit
     cl = P.call_sites(F, 'Storage::clear_matched_blocks')
